@@ -36,72 +36,149 @@ fn flatten(cones: &[SupportedConeT<f64>], out: &mut [u32; 12]) -> usize {
     n
 }
 
-/// C04.collapse — no panic; no empty cone, no SOC(1), no two adjacent NN cones in the output;
-/// every constraint row keeps its cone (rows of collapsed cones become nonnegative rows), in order
-#[kani::proof]
-#[kani::unwind(14)]
-pub fn c04_collapse() {
-    let cones = [any_cone(2), any_cone(2), any_cone(2), any_cone(2)];
-    let out = vh::new_collapsed(&cones);
-    let mut a = [0u32; 12];
-    let mut b = [0u32; 12];
-    let na = flatten(&cones, &mut a);
-    let nb = flatten(&out, &mut b);
-    assert!(na == nb, "total_number_of_rows_preserved");
-    let mut i = 0;
-    while i < 12 {
-        if i < na {
-            assert!(a[i] == b[i], "every_row_keeps_its_cone_kind_and_order");
-        }
-        i += 1;
+/// cone of a CONCRETE kind k with a symbolic dimension parameter d (1..=2).  The kind has to be concrete:
+/// with a symbolic kind CBMC explores `clone()` / drop glue of the `GenPowerConeT(Vec<T>, T)` variant with an
+/// unconstrained vector (two symbolic cones: out of memory at 16 GB, DESIGN.md §6.2 item 15).
+fn kind_cone(k: usize, d: usize) -> SupportedConeT<f64> {
+    match k {
+        0 => SupportedConeT::ZeroConeT(0),
+        1 => SupportedConeT::ZeroConeT(d),
+        2 => SupportedConeT::NonnegativeConeT(0),
+        3 => SupportedConeT::NonnegativeConeT(d),
+        4 => SupportedConeT::SecondOrderConeT(0),
+        5 => SupportedConeT::SecondOrderConeT(1),
+        6 => SupportedConeT::SecondOrderConeT(1 + d),
+        7 => SupportedConeT::ExponentialConeT(),
+        _ => SupportedConeT::PowerConeT(0.5),
     }
-    let mut i = 0;
-    while i < out.len() {
-        assert!(vh::cone_nvars(&out[i]) > 0, "no_empty_cone_in_the_output");
-        assert!(out[i] != SupportedConeT::SecondOrderConeT(1), "no_singleton_second_order_cone_in_the_output");
-        if i > 0 {
-            assert!(!(is_nn(&out[i - 1]) && is_nn(&out[i])), "adjacent_nonnegative_cones_are_merged");
-        }
-        i += 1;
-    }
-    assert!(out.len() <= 4);
-    kani::cover!(out.len() == 1 && na == 6, "everything collapses into one nonnegative cone");
-    kani::cover!(out.len() == 4, "nothing collapses");
-    kani::cover!(out.len() == 0, "only empty cones");
+}
+const KINDS: usize = 9;
+
+fn any_dim() -> usize {
+    let d: usize = kani::any();
+    kani::assume(d >= 1 && d <= 2);
+    d
 }
 
-/// C05.nn_merge — splitting a nonnegative cone (also with empty cones / SOC(1) in between) gives the
-/// same internal cone list as the merged formulation, hence the identical internal problem
-#[kani::proof]
-#[kani::unwind(10)]
-pub fn c05_nn_split_merge() {
-    let a: usize = kani::any();
-    let b: usize = kani::any();
-    kani::assume(a <= 3 && b <= 3);
-    let head = any_cone(2);
-    let tail = any_cone(2);
-    let filler_kind: u8 = kani::any();
-    kani::assume(filler_kind < 3);
-    let filler = match filler_kind {
-        0 => SupportedConeT::ZeroConeT(0),
-        1 => SupportedConeT::NonnegativeConeT(0),
-        _ => SupportedConeT::SecondOrderConeT(0),
+/// C04.collapse — no panic; no empty cone, no SOC(1), no two adjacent NN cones in the output;
+/// every constraint row keeps its cone (rows of collapsed cones become nonnegative rows), in order.
+/// Three cones: first kind K0 (one harness each), the other two kinds enumerated, dimensions symbolic.
+fn collapse3(k0: usize) {
+    let mut seen_all_nn = false;
+    let mut seen_none = false;
+    let mut seen_empty = false;
+    let mut k1 = 0;
+    while k1 < KINDS {
+        let mut k2 = 0;
+        while k2 < KINDS {
+            let cones = [kind_cone(k0, any_dim()), kind_cone(k1, any_dim()), kind_cone(k2, any_dim())];
+            let out = vh::new_collapsed(&cones);
+            let mut a = [0u32; 12];
+            let mut b = [0u32; 12];
+            let na = flatten(&cones, &mut a);
+            let nb = flatten(&out, &mut b);
+            assert!(na == nb, "total_number_of_rows_preserved");
+            let mut i = 0;
+            while i < 12 {
+                if i < na {
+                    assert!(a[i] == b[i], "every_row_keeps_its_cone_kind_and_order");
+                }
+                i += 1;
+            }
+            let mut i = 0;
+            while i < out.len() {
+                assert!(vh::cone_nvars(&out[i]) > 0, "no_empty_cone_in_the_output");
+                assert!(out[i] != SupportedConeT::SecondOrderConeT(1), "no_singleton_second_order_cone_in_the_output");
+                if i > 0 {
+                    assert!(!(is_nn(&out[i - 1]) && is_nn(&out[i])), "adjacent_nonnegative_cones_are_merged");
+                }
+                i += 1;
+            }
+            assert!(out.len() <= 3);
+            seen_all_nn |= out.len() == 1 && na >= 3 && is_nn(&out[0]);
+            seen_none |= out.len() == 3;
+            seen_empty |= out.len() == 0;
+            k2 += 1;
+        }
+        k1 += 1;
+    }
+    kani::cover!(seen_all_nn, "opt: everything collapses into one nonnegative cone");
+    kani::cover!(seen_none, "opt: nothing collapses");
+    kani::cover!(seen_empty, "opt: only empty cones");
+    kani::cover!(true, "all kind combinations visited");
+}
+
+macro_rules! collapse_harness {
+    ($name:ident, $k0:expr) => {
+        #[kani::proof]
+        #[kani::unwind(14)]
+        pub fn $name() {
+            collapse3($k0);
+        }
     };
-    let split = [head.clone(), SupportedConeT::NonnegativeConeT(a), filler, SupportedConeT::NonnegativeConeT(b), tail.clone()];
-    let merged = [head, SupportedConeT::NonnegativeConeT(a + b), tail];
-    let o1 = vh::new_collapsed(&split);
-    let o2 = vh::new_collapsed(&merged);
-    assert!(o1.len() == o2.len(), "split_and_merged_formulations_collapse_to_the_same_length");
-    let mut i = 0;
-    while i < o1.len() {
-        assert!(o1[i] == o2[i], "split_and_merged_formulations_collapse_to_the_same_cones");
-        i += 1;
+}
+collapse_harness!(c04_collapse_k0, 0);
+collapse_harness!(c04_collapse_k1, 1);
+collapse_harness!(c04_collapse_k2, 2);
+collapse_harness!(c04_collapse_k3, 3);
+collapse_harness!(c04_collapse_k4, 4);
+collapse_harness!(c04_collapse_k5, 5);
+collapse_harness!(c04_collapse_k6, 6);
+collapse_harness!(c04_collapse_k7, 7);
+collapse_harness!(c04_collapse_k8, 8);
+
+/// C05.nn_merge — splitting a nonnegative cone (also with an empty cone in between) gives the same internal
+/// cone list as the merged formulation, hence the identical internal problem.  Head / tail kinds enumerated
+/// (zero, nonnegative, second-order, exponential), the filler kind per harness, all dimensions symbolic.
+fn nn_split_merge(filler_kind: usize) {
+    const HT: [usize; 4] = [1, 3, 6, 7];
+    let mut seen = false;
+    let mut h = 0;
+    while h < 4 {
+        let mut t = 0;
+        while t < 4 {
+            let a: usize = kani::any();
+            let b: usize = kani::any();
+            kani::assume(a <= 3 && b <= 3);
+            let (dh_, dt_) = (any_dim(), any_dim());
+            let split = [kind_cone(HT[h], dh_), SupportedConeT::NonnegativeConeT(a), kind_cone(filler_kind, 1), SupportedConeT::NonnegativeConeT(b), kind_cone(HT[t], dt_)];
+            let merged = [kind_cone(HT[h], dh_), SupportedConeT::NonnegativeConeT(a + b), kind_cone(HT[t], dt_)];
+            let o1 = vh::new_collapsed(&split);
+            let o2 = vh::new_collapsed(&merged);
+            assert!(o1.len() == o2.len(), "split_and_merged_formulations_collapse_to_the_same_length");
+            let mut i = 0;
+            while i < o1.len() {
+                assert!(o1[i] == o2[i], "split_and_merged_formulations_collapse_to_the_same_cones");
+                i += 1;
+            }
+            seen |= a == 2 && b == 1 && o1.len() == 3;
+            t += 1;
+        }
+        h += 1;
     }
     // a 1-dimensional second-order cone is the same as a nonnegative row
+    let a: usize = kani::any();
+    kani::assume(a <= 3);
     let soc1: [SupportedConeT<f64>; 2] = [SupportedConeT::NonnegativeConeT(a), SupportedConeT::SecondOrderConeT(1)];
     let o3 = vh::new_collapsed(&soc1);
     assert!(o3.len() == 1 && o3[0] == SupportedConeT::NonnegativeConeT(a + 1), "soc1_is_a_nonnegative_row");
-    kani::cover!(a == 2 && b == 1 && o1.len() == 3, "split cone between two other cones");
+    kani::cover!(seen, "split cone between two other cones");
+}
+
+#[kani::proof]
+#[kani::unwind(10)]
+pub fn c05_nn_split_merge_zero0() {
+    nn_split_merge(0);
+}
+#[kani::proof]
+#[kani::unwind(10)]
+pub fn c05_nn_split_merge_nn0() {
+    nn_split_merge(2);
+}
+#[kani::proof]
+#[kani::unwind(10)]
+pub fn c05_nn_split_merge_soc0() {
+    nn_split_merge(4);
 }
 
 /// problem pieces with symbolic *dimensions* (only the dimension fields are read by the check)
